@@ -667,6 +667,13 @@ class CFG(ProgramGraph):
             entry_node,
         )
 
+        # Remove all nodes that cannot be reached from the entry node, e.g., the handler
+        # of a try block that cannot raise.  Such dead code can contain cycles, which
+        # have no distance to the entry point and always have a predecessor.
+        cfg.graph.remove_nodes_from([
+            node for node in cfg.graph.nodes if node not in distances_to_entry_point
+        ])
+
         # Collect all exit nodes
         exit_nodes = cfg.exit_nodes
 
